@@ -467,9 +467,12 @@ pub fn strategy(max_len: usize) -> BoxedStrategy<Case> {
 }
 
 pub fn run(ctx: &mut Ctx) {
-    ctx.rule = "flip mutators (WithRate with rates {0, 1, >1} u (0,1); WithOneOverLength) on Vec<bool>, Bitstring, Vec<TagBit>, Vector<TagBit> (genes carry position and a negation flag); UMAD through all three constructors on Vector<tagged genes>, Plushy (parent gene i = literal i or a close marker, new genes from a disjoint alphabet with fresh serials) and Bitstring (sizes only), lengths 0.., generated random stream. non-trivial = len >= 2, a rate strictly inside (0,1), child differs from parent; distinct by JSON encoding".into();
+    ctx.rule = "flip mutators (WithRate with rates {0, 1, >1} u (0,1); WithOneOverLength) on Vec<bool>, Bitstring, Vec<TagBit>, Vector<TagBit> (genes carry position and a negation flag); UMAD through all three constructors on Vector<tagged genes>, Plushy (parent gene i = literal i or a close marker, new genes from a disjoint alphabet with fresh serials) and Bitstring (sizes only), lengths 0..40 (and, in a second sub-check, up to 700; thorough 120 / 6000), generated random stream. non-trivial = len >= 2, a rate strictly inside (0,1), child differs from parent; distinct by JSON encoding".into();
     let (n, len) = ctx.tier.pick((1_000_000u32, 40usize), (12_000_000, 120));
     ctx.run_prop("mutations", n, move || strategy(len), oracle);
+    // long genomes: nothing structural may depend on a machine-word, byte-counter or buffer size
+    let (n_long, long) = ctx.tier.pick((30_000u32, 700usize), (400_000, 6_000));
+    ctx.run_prop("mutations_long_genomes", n_long, move || strategy(long), oracle);
 }
 
 pub fn replay(ctx: &mut Ctx, sub: &str, case: &Value) {
